@@ -18,6 +18,10 @@ FLOORS = {"quick": {"evaluations": 1500, "distinct_nontrivial": 60, "hooks": ["H
           "thorough": {"evaluations": 15000, "distinct_nontrivial": 500, "hooks": ["HelicityModel.rename_symbols", "pipeline:renamed"]}}
 CASE_TIMEOUT = {"quick": 300, "thorough": 900}
 WALL_BUDGET = {"quick": 900, "thorough": 10800}
+class _Skip(Exception):
+    pass
+
+
 MAP_KINDS = ["injective", "merge", "chain", "swap", "kinematic_fresh", "empty", "unknown", "all_parameters", "repeat_inverse", "mass_everywhere"]
 FIXTURES = ["jpsi_gamma_pi0_pi0__f0.hel", "jpsi_gamma_pi0_pi0__f0_f2.can", "lambdac_p_km_pip__l1520_d1232_kst.hel", "jpsi_pi0_pip_pim__rho.hel",
             "jpsi_p_pbar_pi0__n1440.hel", "d0_km_pip_pi0__kst_rho.can", "jpsi_k0_sigmap_pbar__sigma1750.hel", "tau_nu_pim_pi0__rho.hel",
@@ -232,12 +236,25 @@ def run_case(case, rec, ctx):
     ids = sorted(fm)
     ev = gen_events(R.initial_mass(r2), [fm[i] for i in ids], 8, rng, ids=ids)
     try:
-        I0, _ = ModelEvaluator(model, pv)(ev)
+        try:
+            I0, _ = ModelEvaluator(model, pv)(ev)
+        except Exception:  # noqa: BLE001
+            if case["map"] not in ("merge", "chain"):
+                raise
+            I0 = np.array([np.nan])   # the *original* is singular once the two parameters are given one value
+        if case["map"] in ("merge", "chain") and not np.isfinite(np.asarray(I0)).all():
+            # a degenerate coupling: with the two parameters set equal the *original* model is singular (e.g. a stable
+            # daughter mass merged with its parent's mass: rho(m0^2) = 0 in the width normalisation); the renamed model
+            # then contains zoo symbolically.  Consistent, but there is no finite intensity to compare.
+            rec.note("degenerate_merge:original_not_finite_at_coupled_values")
+            raise _Skip
         I1, _ = ModelEvaluator(new, {k: v for k, v in pv_new.items() if k in new.parameter_defaults})(ev)
         rec.hit("pipeline:renamed")
         ok = np.allclose(I0, I1, rtol=1e-10, atol=1e-300, equal_nan=True)
         rec.check(bool(ok), "renamed_intensity_differs", f"{label}: renamed model evaluates to {np.asarray(I1)[:2]} but the original to {np.asarray(I0)[:2]} at the carried-over values",
                   {"renames": renames}, ctx["feats"])
+    except _Skip:
+        pass
     except Exception as exc:  # noqa: BLE001
         rec.check(False, "renamed_not_evaluable", f"{label}: renamed model cannot be evaluated: {type(exc).__name__}: {str(exc)[:200]}", {"renames": renames}, ctx["feats"])
     multi = sum(1 for s in smap if sum(s in e.free_symbols for e in [model.intensity, *model.amplitudes.values(), *model.kinematic_variables.values(), *model.components.values()]) >= 2
